@@ -8,6 +8,7 @@ import itertools
 import re
 import string
 import textwrap
+import unicodedata
 from pathlib import Path
 from typing import Collection, Iterable, List, Literal, Mapping, Sequence, Tuple
 
@@ -117,6 +118,13 @@ def _get_func_name_start_end(
     codeblock = source[start:end]
     for match in re.finditer(_get_variable_re_pattern(node.name), codeblock):
         if match.group() == node.name:
+            end = start + match.end()
+            start += match.start()
+            return start, end
+
+    # The parser normalises identifiers, the text may spell the name with other characters
+    for match in re.finditer(r"(?<![\w\.])[^\W\d]\w*", codeblock):
+        if unicodedata.normalize("NFKC", match.group()) == node.name:
             end = start + match.end()
             start += match.start()
             return start, end
